@@ -69,8 +69,10 @@ def reset_globals() -> None:
     from dliswriter.logical_record.core.logical_record import segment_attributes
     from dliswriter.logical_record.core.logical_record.logical_record import LRMeta, LogicalRecord
     from dliswriter.configuration import global_config
-    struct_writer.write_struct.cache_clear()
-    segment_attributes.ushort.cache_clear()
+    for mod in (struct_writer, segment_attributes):
+        for f in list(vars(mod).values()):
+            if callable(f) and hasattr(f, 'cache_clear'):
+                f.cache_clear()
     global_config.high_compat_mode = False
 
     def walk(c: type) -> None:
